@@ -179,9 +179,42 @@ def _recursion_and_prefix(run: Run, model: PyModel) -> None:
 def _window(run: Run, model: PyModel) -> None:
     """R2: days = today - k for k in 0..6 (in that order), yyyymmdd derived from the same dates."""
     fi = model.func(F_GROUP)
-    fn = fi.node
-    sym = fi.name
-    # clock source
+    gfn = fi.node
+    # the function that reads the clock: _paths_from_file_group itself or a helper of the same module it calls
+    cands = [q for q in sorted(model.reachable([F_GROUP])) if q.startswith("zorg.service.file_groups.") and clock_calls(model.funcs[q].node)]
+    if len(cands) != 1:
+        run.undecided("C18.R2", fi.name, f"expected one function reading the clock, found {cands}")
+        return
+    wi = model.funcs[cands[0]]
+    fn = wi.node
+    sym = wi.name
+    # 'today' is read afresh on every expansion: neither the window function nor anything between it and the entry is memoised
+    for q in sorted(model.reachable([F_GROUP])):
+        if not q.startswith("zorg.service.file_groups."):
+            continue
+        for d in model.funcs[q].node.decorator_list:
+            dn = ast.unparse(d.func if isinstance(d, ast.Call) else d)
+            target = dn.split(".")[-1]
+            mi = model.funcs[q].module
+            if target in mi.imports:
+                target = mi.imports[target].split(".")[-1]
+            memo = "cache" in target.lower() or "memo" in target.lower()
+            run.check("C18.R2", f"{model.funcs[q].name}: not memoised", not memo, model.funcs[q].name, d,
+                      f"`@{dn}` memoises {model.funcs[q].name}: the day window is computed once per process, so a long-running process (editor server, watch loop) keeps yesterday's "
+                      "'today' after midnight, and the returned lists are shared and mutable across calls", file=FILE, node=model.funcs[q].node)
+    rename: dict[str, str] = {}
+    if wi is not fi:
+        rets = [r for r in returns_of(fn) if r.value is not None]
+        binds = [s for s in walk_no_nested(gfn) if isinstance(s, ast.Assign) and isinstance(s.value, ast.Call) and model.callee(fi, s.value) == wi.qualname]
+        if len(rets) != 1 or len(binds) != 1:
+            run.undecided("C18.R2", sym, "cannot relate the helper's result to the caller's names")
+            return
+        rv, tg = rets[0].value, binds[0].targets[0]
+        if isinstance(rv, ast.Tuple) and isinstance(tg, ast.Tuple) and len(rv.elts) == len(tg.elts) and all(isinstance(x, ast.Name) for x in list(rv.elts) + list(tg.elts)):
+            rename = {t.id: r.id for t, r in zip(tg.elts, rv.elts)}
+        else:
+            run.undecided("C18.R2", sym, "the helper's result is not a tuple of names unpacked by the caller")
+            return
     clocks = clock_calls(fn)
     if len(clocks) != 1:
         run.undecided("C18.R2", sym, f"expected one clock read, found {len(clocks)}")
@@ -230,7 +263,7 @@ def _window(run: Run, model: PyModel) -> None:
     for c in find_calls(loop, "append"):
         tgt = base_name(c.func.value)  # type: ignore[union-attr]
         apps[tgt] = c
-    fmt_calls = [c for c in ast.walk(fn) if isinstance(c, ast.Call) and isinstance(c.func, ast.Attribute) and c.func.attr == "format" and c.keywords]
+    fmt_calls = [c for c in ast.walk(gfn) if isinstance(c, ast.Call) and isinstance(c.func, ast.Attribute) and c.func.attr == "format" and c.keywords]
     if len(fmt_calls) != 1:
         run.undecided("C18.R2", sym, "expected one `.format(days=..., yyyymmdd=...)` call")
         return
@@ -240,7 +273,7 @@ def _window(run: Run, model: PyModel) -> None:
               f"format() keywords are {sorted(kw)}", file=FILE, node=fmt)
     for key, want in (("days", "date"), ("yyyymmdd", "strftime")):
         var = kw.get(key)
-        c = apps.get(var)
+        c = apps.get(rename.get(var, var))
         if c is None:
             run.refuted("C18.R2", sym, fmt, f"`{key}` is bound to `{var}`, which the window loop does not fill", file=FILE, node=fmt)
             continue
